@@ -13,6 +13,13 @@ def ssList : List Rat → Rat → Nat
 
 def searchsortedLeft (zz : Array Rat) (v : Rat) : Nat := ssList zz.toList v
 
+/-- length of the longest prefix of entries `≤ v`: `numpy.searchsorted(zz, v, side='right')` for a sorted `zz` -/
+def ssListRight : List Rat → Rat → Nat
+  | [], _ => 0
+  | z :: zs, v => if z ≤ v then ssListRight zs v + 1 else 0
+
+def searchsortedRight (zz : Array Rat) (v : Rat) : Nat := ssListRight zz.toList v
+
 /-- numpy 1-D indexing `zz[i]` with a possibly negative integer (wraps once, as `zz[-1]`);
     out of range reads 0 (the real code would raise; never reached by the model, see Lemmas/Admix). -/
 def pyAt (zz : Array Rat) (i : Int) : Rat :=
